@@ -49,8 +49,16 @@ def to_py(t):
     if k == 'ssub':
         return SSubst(to_py(t[1]), SVar(t[2]), to_py(t[3]))
     if k == 'inst':
-        return Instantiate(to_py(t[1]), frozendict({a: to_py(b) for a, b in t[2]}))
+        # notation bodies are shared objects in real use (`Notation.definition`): intern them, so that code which
+        # compares bodies by identity behaves here as it does there
+        body = _BODIES.get(t[1])
+        if body is None:
+            body = _BODIES.setdefault(t[1], to_py(t[1]))
+        return Instantiate(body, frozendict({a: to_py(b) for a, b in t[2]}))
     raise ValueError(t)
+
+
+_BODIES: dict = {}
 
 
 def _ids(xs):
